@@ -172,6 +172,7 @@ def blue_actions(v) -> List[Dict]:
     add("node-application-install", node_name="client_2", application_name="c2-beacon")
     add("node-application-remove", node_name="client_2", application_name="database-client")
     add("node-application-remove", node_name="client_1", application_name="web-browser")
+    add("node-application-remove", node_name="web_server", application_name="web-browser")  # shares port 80 with web-server
     add("node-application-install", node_name="ghost", application_name="dos-bot")
     for verb in ("scan", "checkhash", "repair", "restore", "corrupt", "delete", "access"):
         add("node-file-" + verb, node_name="backup_server", folder_name="docs", file_name="a.txt")
